@@ -58,7 +58,11 @@ def run(ctx):
     if 'bwide' in E.BC:
         for i in range(6 if not ctx.thorough else 60):
             cases.append(E.make_wide_case(rng, count=rng.choice([100, 130, 200])))
+        for i in range(16 if not ctx.thorough else 160):      # table types whose vtables differ in the table size only, runtime and generated API
+            cases.append(E.make_pair_case(rng, gen_api=i % 2 == 1))
     E.run_builds(cases)
+    # wide tables (field ids up to 2000) opened inside each other to depth 20..100: the vtable stack passes 64 KB while ancestors are open
+    E.wide_nested_topdown(rng, 18 if not ctx.thorough else 200)
     # probe (full UBSan incl. alignment): a struct with force_align 16 written through the generated <struct>_create
     if 'bnest' in E.HP:
         s = E.by_name['bnest']
